@@ -54,33 +54,70 @@ func c03URL(i int) (string, string) {
 	return "https://" + host + "/s" + string(rune('0'+i)), host
 }
 
-func c03World(nslots int, symbolicStatus bool) (*VWorld, []*c03Slot) {
+// canned behaviours for the secondary URLs
+const (
+	cGood = iota
+	cRedirectNext // absolute Location to the next URL (cyclically)
+	cRedirectFirst // relative Location to /s0 on the same host
+	cNotFound
+	cForeignType
+	cKinds
+)
+
+func c03Canned(slots []*c03Slot, i int, kind int) {
+	s := slots[i]
+	n := len(slots)
+	switch kind {
+	case cGood:
+		s.status, s.headers, s.locs, s.body = "200", []int{hCTGood}, []int{-1}, bObject
+	case cRedirectNext:
+		s.status, s.headers, s.locs, s.body = "302", []int{hOther, hLocAbs}, []int{-1, (i + 1) % n}, bEmpty
+	case cRedirectFirst:
+		s.status, s.headers, s.locs, s.body = "301", []int{hLocRel}, []int{0}, bEmpty
+	case cNotFound:
+		s.status, s.headers, s.locs, s.body = "404", nil, nil, bObject
+	default:
+		s.status, s.headers, s.locs, s.body = "200", []int{hCTForeign}, []int{-1}, bObject
+	}
+}
+
+// c03World: general=true makes the first URL's response fully general
+// (symbolic status digits, 0..2 headers, any body); every other URL shows one
+// of the canned behaviours.
+func c03World(nslots int, general bool) (*VWorld, []*c03Slot) {
 	w := NewWorld()
 	slots := make([]*c03Slot, nslots)
 	for i := range slots {
 		s := &c03Slot{}
 		s.url, s.host = c03URL(i)
-		if i == 0 && symbolicStatus {
+		slots[i] = s
+	}
+	for i, s := range slots {
+		if i == 0 && general {
 			d1 := verifrt.Byte("status")
 			verifrt.Assume(verifrt.InSet(d1, "1234"))
 			d2, d3 := verifrt.Byte("status"), verifrt.Byte("status")
 			verifrt.Assume(verifrt.All(d2 >= '0', d2 <= '9', d3 >= '0', d3 <= '9'))
 			s.status = string([]byte{d1, d2, d3})
-		} else {
-			s.status = []string{"200", "301", "404", "203", "204"}[verifrt.Choice("status", 5)]
-		}
-		nh := verifrt.Choice("nheaders", 3)
-		for h := 0; h < nh; h++ {
-			k := 1 + verifrt.Choice("header", hKinds-1)
-			s.headers = append(s.headers, k)
-			loc := -1
-			if k == hLocAbs || k == hLocRel || k == hLocPlainHTTP {
-				loc = verifrt.Choice("target", nslots)
+			nh := verifrt.Choice("nheaders", 3)
+			for h := 0; h < nh; h++ {
+				k := 0
+				if h == 0 {
+					k = 1 + verifrt.Choice("header", hKinds-1)
+				} else {
+					k = []int{hCTGood, hCTForeign, hLocAbs, hCTMalformed}[verifrt.Choice("header2", 4)]
+				}
+				s.headers = append(s.headers, k)
+				loc := -1
+				if k == hLocAbs || k == hLocRel || k == hLocPlainHTTP {
+					loc = verifrt.Choice("target", nslots)
+				}
+				s.locs = append(s.locs, loc)
 			}
-			s.locs = append(s.locs, loc)
+			s.body = verifrt.Choice("body", bKinds)
+			continue
 		}
-		s.body = verifrt.Choice("body", bKinds)
-		slots[i] = s
+		c03Canned(slots, i, verifrt.Choice("canned", verifrt.Param("canned", cKinds)))
 	}
 	for _, s := range slots {
 		var sb strings.Builder
@@ -179,31 +216,66 @@ func c03Get(slots []*c03Slot, i int, budget int) (ok bool, source string, id str
 	return true, src.String(), id, nreq
 }
 
-// VerifC03Get: classification, redirect accounting and cache transparency.
-func VerifC03Get() {
-	nslots := verifrt.Param("slots", 3)
-	w, slots := c03World(nslots, verifrt.Param("symstatus", 1) == 1)
-	w.Chunk = []int{0, 1, 7}[verifrt.Choice("chunk", verifrt.Param("chunks", 1))]
-	VerifUseWorld(w, 1+verifrt.Choice("cachesize", 2))
-
-	ngets := 1 + verifrt.Choice("gets", verifrt.Param("gets", 2))
-	for g := 0; g < ngets; g++ {
-		i := verifrt.Choice("slot", nslots)
-		budget := verifrt.Choice("budget", verifrt.Param("maxbudget", 2)+1)
-		want := c03Ref(slots, i, budget)
-		ok, source, _, nreq := c03Get(slots, i, budget)
-		verifrt.Assert(ok == (want >= 0), "document-iff-the-exchange-is-acceptable")
-		if ok && want >= 0 {
-			verifrt.Assert(source == slots[want].url, "source-is-the-final-url")
-		}
-		verifrt.Assert(nreq <= budget+1, "at-most-one-request-per-allowed-hop")
-		verifrt.Observe("ok", ok)
-		verifrt.Observe("source", source)
+func c03Check(slots []*c03Slot, i, budget int) {
+	want := c03Ref(slots, i, budget)
+	ok, source, _, nreq := c03Get(slots, i, budget)
+	verifrt.Assert(ok == (want >= 0), "document-iff-the-exchange-is-acceptable")
+	if ok && want >= 0 {
+		verifrt.Assert(source == slots[want].url, "source-is-the-final-url")
 	}
+	verifrt.Assert(nreq <= budget+1, "at-most-one-request-per-allowed-hop")
+	verifrt.Observe("ok", ok)
+	verifrt.Observe("source", source)
+}
+
+func c03CheckRequests() {
 	// every request went to the host of the URL it was for, as a single write
 	for _, r := range VerifRequests() {
 		verifrt.Assert(r.Writes == 1, "one-write-per-connection")
 		verifrt.Assert(strings.HasPrefix(r.Raw, "GET /s") && strings.Contains(r.Raw, "\r\nHost: "+r.Host+"\r\n"), "request-names-its-host")
 	}
+}
+
+// VerifC03Classify: which exchanges yield a document (one fetch, general response).
+func VerifC03Classify() {
+	nslots := verifrt.Param("slots", 2)
+	w, slots := c03World(nslots, true)
+	w.Chunk = []int{0, 1, 7}[verifrt.Choice("chunk", verifrt.Param("chunks", 1))]
+	VerifUseWorld(w, 2)
+	c03Check(slots, 0, verifrt.Choice("budget", verifrt.Param("maxbudget", 2)+1))
+	c03CheckRequests()
+	verifrt.Reach("end")
+}
+
+// VerifC03History: with unchanged servers, every fetch of a sequence gives the
+// history-free answer, whatever was fetched before and however small the cache.
+func VerifC03History() {
+	nslots := verifrt.Param("slots", 3)
+	w, slots := c03World(nslots, false)
+	VerifUseWorld(w, 1+verifrt.Choice("cachesize", 2))
+	// the client fetches everything with one fixed redirect budget
+	budget := verifrt.Choice("budget", verifrt.Param("maxbudget", 2)+1)
+	ngets := verifrt.Param("gets", 2)
+	for g := 0; g < ngets; g++ {
+		i := verifrt.Choice("slot", nslots)
+		if g == 0 {
+			c03Check(slots, i, budget)
+			continue
+		}
+		// later fetches: a cached redirect target may save hops, so a document
+		// may come back where the budget alone would not reach - but it must be
+		// the right document, and an error must be one the servers justify
+		ok, source, _, nreq := c03Get(slots, i, budget)
+		unlimited := c03Ref(slots, i, 2*nslots)
+		if ok {
+			verifrt.Assert(unlimited >= 0 && source == slots[unlimited].url, "refetch-returns-the-same-document-and-source")
+		} else {
+			verifrt.Assert(c03Ref(slots, i, budget) < 0, "refetch-fails-only-if-it-would-fail-on-its-own")
+		}
+		verifrt.Assert(nreq <= budget+1, "at-most-one-request-per-allowed-hop")
+		verifrt.Observe("ok", ok)
+		verifrt.Observe("source", source)
+	}
+	c03CheckRequests()
 	verifrt.Reach("end")
 }
